@@ -349,6 +349,7 @@ def run(ck, m):
 
 
 MUTANTS = [
+    M("kitty-driver-deletes-first", KT, "KittyImage._display_animated", "            kwargs[\"blend\"] = False\n", "            kwargs[\"blend\"] = False\n            print(ctlseqs.KITTY_DELETE_Z_INDEX % kwargs[\"z_index\"], end=\"\", flush=True)\n", {"R2"}),
     M("sleep-in-else", RN, "Renderable._animate_", "            # left-over of last frame's duration\n            sleep(max(0, duration_ms * 10**6 - (perf_counter_ns() - start_ns)) / 10**9)\n        except KeyboardInterrupt:\n            pass\n",
       "        except KeyboardInterrupt:\n            pass\n        else:\n            sleep(max(0, duration_ms * 10**6 - (perf_counter_ns() - start_ns)) / 10**9)\n", {"R5"}),
     M("revert-fix-hide-before-try", CM, "BaseImage.draw",
